@@ -312,6 +312,13 @@ def run_history(mon, base, hid, steps, names, sh, snapshots_out=None):
             case["failing_step"] = i
             if step["op"] == "restore":
                 layersim.restore(layers, names)
+                if step.get("strip"):
+                    # ... and one restored layer directory comes back without its <layer>.toml (a layer with no metadata at all: not the
+                    # buildpack's type, so it goes through the migration callback like any other restored layer)
+                    p = os.path.join(layers, step["strip"] + ".toml")
+                    if os.path.isdir(os.path.join(layers, step["strip"])) and os.path.lexists(p):
+                        os.unlink(p)
+                        sh.count("restores_without_toml")
                 pre = vp.snapshot(layers)
                 sh.count("restores")
                 continue
@@ -447,7 +454,7 @@ def random_history(r, length):
     mine = NAMES[:3] if r.random() < 0.4 else r.sample(NAMES, 3)
     for _ in range(length):
         if r.random() < 0.15:
-            steps.append({"op": "restore"})
+            steps.append({"op": "restore", "strip": r.choice(mine)} if r.random() < 0.3 else {"op": "restore"})
         else:
             steps.append(concrete(r.choice([s for s in SYMS if s not in ("Rst",)]), r, r.choice(mine)))
     return steps
